@@ -98,61 +98,138 @@ struct ModelEntry {
     bound: u8,
 }
 
-/// Replays `ops` on a fresh real table next to model T. Returns (class, detail, op index).
+/// What a lookup showed (None = nothing).
+type Seen = Option<ModelEntry>;
+
+fn seen_of(e: Option<engine::transposition::Entry>, key: u64) -> Result<Seen, (String, String)> {
+    match e {
+        None => Ok(None),
+        Some(g) => {
+            if g.hash_key != key {
+                return Err(("foreign_entry_returned".to_string(), format!("retrieve({:016x}) returned an entry stored under {:016x}", key, g.hash_key)));
+            }
+            let mv = g.best_move.map(|m| [m.from, m.to, m.piece_type.index() as u8, m.move_type as u8]);
+            Ok(Some(ModelEntry { eval: g.eval, mv, depth: g.depth, bound: g.bounds as u8 }))
+        }
+    }
+}
+
+/// The rule for one store of `new` under a key whose lookup showed `before` just before
+/// and `after` just after the call. Loss-tolerant: a table may forget (or decline to keep)
+/// an entry - the property allows a lookup to return nothing - but what it returns must be
+/// the data most recently accepted: a shallower result never replaces a deeper one, an equal
+/// or deeper one does, and nothing else ever appears.
+fn judge_store(key: u64, before: &Seen, new: &ModelEntry, after: &Seen, probes: &mut Counters) -> Option<(String, String)> {
+    let show = |e: &ModelEntry| format!("eval={} depth={} bound={} move={:?}", e.eval, e.depth, e.bound, e.mv);
+    match (before, after) {
+        (Some(old), Some(now)) => {
+            if old.depth > new.depth {
+                probes.add("store_shallower_rejected", 1);
+                if now == old {
+                    None
+                } else if now == new {
+                    Some(("shallower_replaced_deeper".into(), format!("key {:016x} held [{}]; a store of [{}] replaced it", key, show(old), show(new))))
+                } else {
+                    Some(("wrong_entry_returned".into(), format!("key {:016x} held [{}]; after a store of [{}] it holds [{}]", key, show(old), show(new), show(now))))
+                }
+            } else {
+                probes.add(if old.depth == new.depth { "store_equal_depth" } else { "store_deeper_replaces" }, 1);
+                if now == new {
+                    None
+                } else if now == old {
+                    Some(("equal_or_deeper_store_refused".into(), format!("key {:016x} held [{}]; a store of [{}] (equal or deeper) did not replace it", key, show(old), show(new))))
+                } else {
+                    Some(("wrong_entry_returned".into(), format!("key {:016x} held [{}]; after a store of [{}] it holds [{}]", key, show(old), show(new), show(now))))
+                }
+            }
+        }
+        (None, Some(now)) => {
+            probes.add("store_on_empty_key", 1);
+            if now == new {
+                None
+            } else {
+                Some(("entry_from_nowhere".into(), format!("key {:016x} was empty; after a store of [{}] it holds [{}]", key, show(new), show(now))))
+            }
+        }
+        (Some(old), None) => {
+            // the entry vanished: allowed by the letter of the property, counted
+            probes.add("entries_lost_on_store", 1);
+            let _ = old;
+            None
+        }
+        (None, None) => {
+            probes.add("stores_not_kept", 1);
+            None
+        }
+    }
+}
+
+/// A lookup of `key` that is not adjacent to a store of that key: nothing, or exactly what
+/// the key was last seen to hold (entries may vanish, never change or appear by themselves).
+fn judge_lookup(key: u64, last: Option<&Seen>, got: &Seen, probes: &mut Counters) -> Option<(String, String)> {
+    let show = |e: &ModelEntry| format!("eval={} depth={} bound={} move={:?}", e.eval, e.depth, e.bound, e.mv);
+    match (last.cloned().flatten(), got) {
+        (None, None) => {
+            probes.add("retrieve_miss", 1);
+            None
+        }
+        (Some(_), None) => {
+            probes.add("entries_lost_between_operations", 1);
+            None
+        }
+        (None, Some(g)) => Some(("entry_from_nowhere".into(), format!("retrieve({:016x}) returned [{}] although the key held nothing", key, show(g)))),
+        (Some(w), Some(g)) => {
+            probes.add("retrieve_hit", 1);
+            if *g == w {
+                None
+            } else {
+                Some(("wrong_entry_returned".into(), format!("retrieve({:016x}) returned [{}]; the data most recently accepted is [{}]", key, show(g), show(&w))))
+            }
+        }
+    }
+}
+
+/// Replays `ops` on a fresh real table. Every store is bracketed by a lookup of its key
+/// before and after; the table is judged by what those lookups show. Returns (class, detail).
 pub fn replay_ops(ops: &[Op]) -> (Option<(String, String)>, Counters) {
     let mut probes = Counters::default();
-    let mut model: HashMap<u64, ModelEntry> = HashMap::new();
+    let mut last: HashMap<u64, Seen> = HashMap::new();
     let (r, crashed) = {
         let st = crate::simworld::SimState::new(0, 0);
         let proc_ = crate::simworld::Proc::start(st, None);
         let (o, r) = proc_.run(|| {
             let mut tt = TranspositionTable::new();
             for (i, op) in ops.iter().enumerate() {
+                let at = |v: (String, String)| (v.0, format!("op {}: {}", i, v.1));
                 match op {
                     Op::Store { key, eval, mv, depth, bound } => {
-                        let accept = match model.get(key) {
-                            None => true,
-                            Some(old) => {
-                                if old.depth == *depth {
-                                    probes.add("store_equal_depth", 1);
-                                } else if old.depth > *depth {
-                                    probes.add("store_shallower_rejected", 1);
-                                } else {
-                                    probes.add("store_deeper_replaces", 1);
-                                }
-                                old.depth <= *depth
-                            }
+                        let before = match seen_of(tt.retrieve(*key).copied(), *key) {
+                            Ok(x) => x,
+                            Err(v) => return Some(at(v)),
                         };
-                        if accept {
-                            model.insert(*key, ModelEntry { eval: *eval, mv: *mv, depth: *depth, bound: *bound });
+                        if let Some(v) = judge_lookup(*key, last.get(key), &before, &mut probes) {
+                            return Some(at(v));
                         }
                         tt.store(*key, *eval, mv.map(mk_move), *depth, bound_of(*bound));
+                        let after = match seen_of(tt.retrieve(*key).copied(), *key) {
+                            Ok(x) => x,
+                            Err(v) => return Some(at(v)),
+                        };
+                        let new = ModelEntry { eval: *eval, mv: *mv, depth: *depth, bound: *bound };
+                        if let Some(v) = judge_store(*key, &before, &new, &after, &mut probes) {
+                            return Some(at(v));
+                        }
+                        last.insert(*key, after);
                     }
                     Op::Retrieve { key } => {
-                        let got = tt.retrieve(*key).copied();
-                        let want = model.get(key);
-                        match (got, want) {
-                            (None, None) => probes.add("retrieve_miss", 1),
-                            (Some(g), Some(w)) => {
-                                probes.add("retrieve_hit", 1);
-                                if g.hash_key != *key {
-                                    return Some(("foreign_entry_returned".to_string(), format!("op {}: retrieve({:016x}) returned an entry stored under {:016x}", i, key, g.hash_key)));
-                                }
-                                let same = g.eval == w.eval && g.depth == w.depth && g.bounds == bound_of(w.bound) && g.best_move == w.mv.map(mk_move);
-                                if !same {
-                                    return Some((
-                                        "wrong_entry_returned".to_string(),
-                                        format!("op {}: retrieve({:016x}) returned eval={} depth={} {:?} move={:?}; the data most recently accepted is eval={} depth={} bound={} move={:?}", i, key, g.eval, g.depth, g.bounds, g.best_move.map(|m| m.to_algebraic()), w.eval, w.depth, w.bound, w.mv),
-                                    ));
-                                }
-                            }
-                            (Some(g), None) => {
-                                return Some(("entry_from_nowhere".to_string(), format!("op {}: retrieve({:016x}) returned eval={} depth={} although nothing was stored under that key", i, key, g.eval, g.depth)));
-                            }
-                            (None, Some(w)) => {
-                                return Some(("stored_entry_lost".to_string(), format!("op {}: retrieve({:016x}) returned nothing although eval={} depth={} was accepted", i, key, w.eval, w.depth)));
-                            }
+                        let got = match seen_of(tt.retrieve(*key).copied(), *key) {
+                            Ok(x) => x,
+                            Err(v) => return Some(at(v)),
+                        };
+                        if let Some(v) = judge_lookup(*key, last.get(key), &got, &mut probes) {
+                            return Some(at(v));
                         }
+                        last.insert(*key, got);
                     }
                 }
             }
@@ -245,9 +322,9 @@ impl Insitu {
     }
 }
 
-/// Several searches on ONE engine (no reset in between); after each, the content of the
-/// engine's table must be exactly what depth-preferred replacement makes of all stores
-/// observed so far. Returns (violation, probes, event-log hash).
+/// Several searches on ONE engine (no reset in between); every store the searcher
+/// makes is judged by what the table shows for its key right before and right after, and
+/// after each search the table must hold nothing but what those stores left there. Returns (violation, probes, event-log hash).
 pub fn run_insitu(sc: &Insitu) -> (Option<(String, String)>, Counters, u64) {
     let mut probes = Counters::default();
     with_bench(|bench| {
@@ -264,10 +341,11 @@ pub fn run_insitu(sc: &Insitu) -> (Option<(String, String)>, Counters, u64) {
         }
         let sess = Session::new(st);
         sess.fresh(&mut bench.searcher, false);
-        let mut model: HashMap<u64, ModelEntry> = HashMap::new();
+        let mut last: HashMap<u64, Seen> = HashMap::new();
         let mut consumed = 0usize;
         let mut viol = None;
-        for (i, s) in sc.steps.iter().enumerate() {
+        let view = |v: &engine::verif_seam::EntryView| ModelEntry { eval: v.1, mv: v.2, depth: v.3, bound: v.4 };
+        'steps: for (i, s) in sc.steps.iter().enumerate() {
             let board = engine::board::Board::new(&s.fen);
             let r = sess.search(&mut bench.searcher, &board, s.depth, if s.expiry.is_some() { Some(HUGE_LIMIT) } else { None });
             match &r.outcome {
@@ -281,62 +359,61 @@ pub fn run_insitu(sc: &Insitu) -> (Option<(String, String)>, Counters, u64) {
                     break;
                 }
             }
-            let full = {
+            let ctx = format!("search {} ({} depth {} expiry {:?})", i, s.fen, s.depth, s.expiry);
+            let (events, full): (Vec<Event>, bool) = {
                 let st = sess.st();
                 let full = st.tt_traffic.len() >= st.tt_traffic_cap;
-                for e in &st.tt_traffic[consumed..] {
-                    if let Event::TtStore { key, eval, mv, depth, bound } = e {
-                        let accept = match model.get(key) {
-                            None => true,
-                            Some(old) => {
-                                if old.depth > *depth && i > 0 {
-                                    probes.add("insitu_shallower_store_on_deeper_entry", 1);
-                                }
-                                old.depth <= *depth
-                            }
-                        };
-                        if accept {
-                            model.insert(*key, ModelEntry { eval: *eval, mv: *mv, depth: *depth, bound: *bound });
-                        }
-                    }
-                }
+                let ev = st.tt_traffic[consumed..].to_vec();
                 consumed = st.tt_traffic.len();
-                full
+                (ev, full)
             };
+            // every store the searcher made, with what the table showed right before and after
+            let mut pending: Option<ModelEntry> = None;
+            for e in &events {
+                match e {
+                    Event::TtStore { eval, mv, depth, bound, .. } => pending = Some(ModelEntry { eval: *eval, mv: *mv, depth: *depth, bound: *bound }),
+                    Event::TtStoreEffect { key, before, after } => {
+                        let Some(new) = pending.take() else { continue };
+                        for v in [before, after].into_iter().flatten() {
+                            if v.0 != *key {
+                                viol = Some(("foreign_entry_returned".to_string(), format!("{}: lookup of {:016x} returned an entry stored under {:016x}", ctx, key, v.0)));
+                                break 'steps;
+                            }
+                        }
+                        let b: Seen = before.as_ref().map(view);
+                        let a: Seen = after.as_ref().map(view);
+                        if i > 0 && b.map(|x| x.depth > new.depth).unwrap_or(false) {
+                            probes.add("insitu_shallower_store_on_deeper_entry_of_an_earlier_search", 1);
+                        }
+                        if let Some(v) = judge_lookup(*key, last.get(key), &b, &mut probes).or_else(|| judge_store(*key, &b, &new, &a, &mut probes)) {
+                            viol = Some((v.0, format!("{}: {}", ctx, v.1)));
+                            break 'steps;
+                        }
+                        last.insert(*key, a);
+                        probes.add("insitu_stores_judged", 1);
+                    }
+                    _ => {}
+                }
+            }
             if full {
                 probes.add("insitu_inconclusive_traffic_cap", 1);
                 break;
             }
+            // the table's whole content: nothing but what the judged stores left there
             let entries = bench.searcher.verif_tt_entries();
             probes.add("insitu_tables_audited", 1);
             probes.add("insitu_entries_compared", entries.len() as u64);
-            let mut keys: Vec<&u64> = model.keys().collect();
-            keys.sort();
-            let mut diff = None;
-            if entries.len() != model.len() {
-                diff = Some(format!("table holds {} entries, {} were accepted", entries.len(), model.len()));
-            }
             for e in &entries {
-                match model.get(&e.hash_key) {
-                    None => {
-                        diff = Some(format!("entry {:016x} (eval={} depth={}) was never stored", e.hash_key, e.eval, e.depth));
-                        break;
-                    }
-                    Some(w) => {
-                        let same = e.eval == w.eval && e.depth == w.depth && e.bounds == bound_of(w.bound) && e.best_move == w.mv.map(mk_move);
-                        if !same {
-                            diff = Some(format!(
-                                "key {:016x}: table holds eval={} depth={} {:?} move={:?}; depth-preferred replacement over the observed stores gives eval={} depth={} bound={} move={:?}",
-                                e.hash_key, e.eval, e.depth, e.bounds, e.best_move.map(|m| m.to_algebraic()), w.eval, w.depth, w.bound, w.mv
-                            ));
-                            break;
-                        }
-                    }
+                let mv = e.best_move.map(|m| [m.from, m.to, m.piece_type.index() as u8, m.move_type as u8]);
+                let got = Some(ModelEntry { eval: e.eval, mv, depth: e.depth, bound: e.bounds as u8 });
+                if let Some(v) = judge_lookup(e.hash_key, last.get(&e.hash_key), &got, &mut probes) {
+                    viol = Some((v.0, format!("after {}: table content: {}", ctx, v.1)));
+                    break 'steps;
                 }
             }
-            if let Some(d) = diff {
-                viol = Some(("table_content_differs_from_accepted_stores".to_string(), format!("after search {} ({} depth {} expiry {:?}): {}", i, s.fen, s.depth, s.expiry, d)));
-                break;
+            let held = last.values().filter(|v| v.is_some()).count();
+            if entries.len() < held {
+                probes.add("insitu_entries_missing_from_content", (held - entries.len()) as u64);
             }
         }
         let h = sess.st().log_hash;
@@ -562,7 +639,7 @@ pub fn run(ctx: &Ctx) -> i32 {
     });
     let ev = Evidence {
         level: "exploration",
-        rule: "Three kinds of history. In-situ (one sixth): 2-5 searches on ONE engine without reset (same position at other depths, a successor whose tree overlaps, clock-interrupted searches, refused stores); after each search the content of the engine's own table must equal what depth-preferred replacement makes of every store call observed since the engine was created. Replayed: histories of store/retrieve calls, one third recorded from simulated searches on one table (a clock-interrupted search followed by two completed ones, optionally with refused stores), the rest synthetic over 1-6 keys (some differing only in their high bits) with depths 0..4, many ties and scores that include mate values and window edges. Each history is replayed call by call on a fresh real TranspositionTable next to a reference map with depth-preferred replacement; every retrieve must return exactly the reference's answer. A case = a history with at least one store and one retrieve; distinct by content hash.".into(),
+        rule: "Three kinds of history. In-situ (one sixth): 2-5 searches on ONE engine without reset (same position at other depths, a successor whose tree overlaps, clock-interrupted searches, refused stores); every store the searcher makes is judged by what the engine's own table shows for that key right before and right after the call (a shallower result must not replace a deeper one, an equal or deeper one must, nothing else may appear), and after each search the table may hold nothing but what those stores left. Replayed: histories of store/retrieve calls, one third recorded from simulated searches on one table (a clock-interrupted search followed by two completed ones, optionally with refused stores), the rest synthetic over 1-6 keys (some differing only in their high bits) with depths 0..4, many ties and scores that include mate values and window edges. Each history is replayed call by call on a fresh real TranspositionTable, every store bracketed by a lookup of its key; a lookup must show nothing or exactly the data last seen accepted for that key, and each store must obey the replacement rule. A table that forgets entries is tolerated (counted in entries_lost_*), as the property allows a lookup to return nothing. A case = a history with at least one store and one retrieve; distinct by content hash.".into(),
         extra: serde_json::Map::new(),
         assumptions: vec![
             "the table is a deterministic function of its call sequence, so replaying recorded calls is equivalent to observing returns inside the search; the in-situ audit covers what the engine does to its table between calls (per-search housekeeping)".into(),
